@@ -28,9 +28,9 @@ KINDS = [
 ]
 
 SIZES = {
-    "quick": {"tworun": 700, "explicit": 200, "odd": 40, "pinned": 160, "construct": 500, "wild": 300, "choose": 500, "vresult": 250,
+    "quick": {"tworun": 700, "explicit": 200, "odd": 40, "pinned": 160, "devflip": 12, "construct": 500, "wild": 300, "choose": 500, "vresult": 250,
               "match": 250},
-    "thorough": {"tworun": 14000, "explicit": 3500, "odd": 500, "pinned": 2500, "construct": 10000, "wild": 5000, "choose": 10000,
+    "thorough": {"tworun": 14000, "explicit": 3500, "odd": 500, "pinned": 2500, "devflip": 60, "construct": 10000, "wild": 5000, "choose": 10000,
                  "vresult": 3000, "match": 3000},
 }
 PER = 100
@@ -65,7 +65,7 @@ def describe(c):
 
 def harness_args(ctx, tier):
     s = SIZES[tier]
-    return ["-seed", str(ctx.seed), "-tworun", str(s["tworun"]), "-explicit", str(s["explicit"]), "-odd", str(s["odd"]), "-pinned", str(s["pinned"]),
+    return ["-seed", str(ctx.seed), "-tworun", str(s["tworun"]), "-explicit", str(s["explicit"]), "-odd", str(s["odd"]), "-pinned", str(s["pinned"]), "-devflip", str(s["devflip"]),
             "-construct", str(s["construct"]), "-wild", str(s["wild"]), "-choose", str(s["choose"]),
             "-vresult", str(s["vresult"]), "-match", str(s["match"]), "-per", str(PER)]
 
